@@ -50,12 +50,13 @@ type Builder struct {
 
 // Build builds a transactions.
 func (tb Builder) Build() *Transaction {
-	// the syntax has no escape for a double quote inside a description; replacing it here (and
-	// not only when printing) keeps the order of a day's transactions the same as in the printed text
+	// the syntax has no escape for a double quote inside a description and accepts valid UTF-8 only;
+	// replacing both here (and not only when printing) keeps the order of a day's transactions the
+	// same as in the printed text
 	return &Transaction{
 		Src:         tb.Src,
 		Date:        tb.Date,
-		Description: strings.ReplaceAll(tb.Description, "\"", "'"),
+		Description: strings.ToValidUTF8(strings.ReplaceAll(tb.Description, "\"", "'"), "\uFFFD"),
 		Postings:    tb.Postings,
 		Targets:     tb.Targets,
 	}
